@@ -1,4 +1,4 @@
-use chrono::{DateTime, Duration, NaiveDateTime, Utc};
+use chrono::Utc;
 
 ///
 /// current time in milliseconds since unix epoch
@@ -12,17 +12,15 @@ pub fn now() -> i64 {
     dt.timestamp_millis()
 }
 
+const DAY_IN_MILLIS: i64 = 86_400_000;
+
 //returns the date without time
+//dates are received from peers: any value must be handled, even one that is outside the calendar range
 pub fn date(date_time: i64) -> i64 {
-    let date = DateTime::from_timestamp_millis(date_time).unwrap();
-    let ds: NaiveDateTime = date.date_naive().and_hms_opt(0, 0, 0).unwrap();
-    ds.and_utc().timestamp_millis()
+    date_time.saturating_sub(date_time.rem_euclid(DAY_IN_MILLIS))
 }
 
 //returns the next day without time
 pub fn date_next_day(date_time: i64) -> i64 {
-    let date = DateTime::from_timestamp_millis(date_time).unwrap();
-    let date = date + Duration::days(1);
-    let ds: NaiveDateTime = date.date_naive().and_hms_opt(0, 0, 0).unwrap();
-    ds.and_utc().timestamp_millis()
+    date(date_time).saturating_add(DAY_IN_MILLIS)
 }
